@@ -10,6 +10,7 @@
 import NngModel.Proofs.SpStream
 import NngModel.Proofs.SpPullUp
 import NngModel.Spec.SpStream
+import NngModel.Generated.C01
 namespace Nng.C01
 open Nng Nng.Sp
 
